@@ -17,7 +17,6 @@ RULE = ('per helper: generated sequences (lists of small ints / short strings / 
         'parameters in the extra campaign). non-trivial = a boundary class: length multiple of size, size > length, separator at an '
         'end or repeated, maxsplit below the number of separators, overlap = chunk_size-1, unaligned offset with align. '
         'distinct = distinct canonical JSON of the case.')
-RULE += ' Round 6: results of chunked/windowed/pairwise/split are modified by the caller (emptied, extended) and the same call is made again; a list/set of separators is changed in place between two split calls on the same object.'
 ASSUMPTIONS = [
     'partition keys return real bools; windowed size >= 1; fill for bytes input is an int (the element type)',
     'chunk_ranges: input_size >= 0, chunk_size >= 1, 0 <= overlap < chunk_size, offset >= 0; one empty range accepted for input_size 0',
